@@ -6,6 +6,7 @@ BASE = dict(
     GetModes=["nb", "bl"], CreateTO=["none"], RecycleTO=["none"], HasRuntime=True,
     ResizeTargets=[], AllowClose=False, AllowRetain=False, AllowTake=False, AllowDropPool=False,
     AllowFail=True, AllowSuspend=True, AllowCancel=True, AllowPanic=False, ThreadLevel=True, HoldAndWait=True,
+    UnwindDrops=False,
 )
 
 STRUCT = ["TypeOK", "UsersExact", "SizeExact", "CreatingExact", "PermitsCover", "NoWaiterWithFreePermit"]
@@ -67,6 +68,10 @@ PROPS = {
                 ("m1bl", C(InitMax=1, Budget=4, AllowTake=True, AllowRetain=True, GetModes=["bl"]), True),
                 ("m1nb", C(InitMax=1, Budget=4, AllowTake=True, AllowRetain=True, AllowPanic=True, GetModes=["nb"]), True),
                 ("m2nb", C(InitMax=2, Budget=3, NPost=1, AsyncPost=[1], NPc=1, Lifo=True, AllowTake=True, AllowRetain=True, AllowPanic=True, GetModes=["nb"]), True),
+                # a caller whose get() panics drops what it holds while the panic unwinds
+                ("unw1", C(Tasks=["t1"], InitMax=2, MaxObjs=4, Budget=5, ThreadLevel=False, AllowPanic=True, UnwindDrops=True, GetModes=["nb"],
+                           AllowSuspend=False, AllowCancel=False), True),
+                ("unw2", C(InitMax=1, Budget=3, AllowPanic=True, UnwindDrops=True, GetModes=["nb"], AllowCancel=False), True),
                 ("m1mix", C(InitMax=1, Budget=4, AllowTake=True, AllowRetain=True, AllowPanic=True), False),
             ],
             "thorough": [
@@ -183,17 +188,24 @@ PROPS = {
         },
     },
     "C09": {
-        "invariants": ["Inv_C09b", "Inv_C02c"], "actprops": [], "preds": ["C09a", "C09b", "C09c"],
+        "invariants": ["Inv_C09b", "Inv_C02c"], "actprops": [], "preds": ["C09a", "C09b", "C09c"], "xh_too": True,
         "configs": {
             "quick": [
                 ("rt", C(InitMax=2, Budget=4, AllowRetain=True, AllowTake=True, AllowSuspend=False, AllowCancel=False, GetModes=["nb"]), True),
                 ("rsz", C(InitMax=2, Budget=4, AllowRetain=True, ResizeTargets=[1], AllowClose=True, AllowSuspend=False, AllowCancel=False, AllowFail=False, GetModes=["bl"]), True),
+                # a manager that relies on detach (anchor: postgres/src/lib.rs): its registry follows the pool's clients
+                ("pgreg", C(MaxSize=3, NConns=3, Budget=5, Method="fast", Keys=["a"]), True,
+                 {"kind": "pgmgr", "invariants": ["Inv_C16_registry", "Inv_Capacity"], "actprops": [], "preds": ["P16c", "P16d", "P16f"],
+                  "hcfg": {"stress": 24, "stress_rounds": 6}}),
                 ("tkrsz", C(Tasks=["t1"], InitMax=2, Budget=6, AllowTake=True, ResizeTargets=[0, 1], AllowClose=True, AllowSuspend=False, AllowCancel=False, AllowFail=False, GetModes=["nb"], ThreadLevel=False), True),
             ],
             "thorough": [
                 ("rt", C(InitMax=2, Budget=5, AllowRetain=True, AllowTake=True, AllowCancel=False), True),
                 ("rsz", C(InitMax=2, Budget=5, AllowRetain=True, AllowTake=True, ResizeTargets=[1], AllowClose=True, AllowSuspend=False, AllowCancel=False), True),
                 ("m3", C(InitMax=3, MaxObjs=4, Budget=6, ThreadLevel=False, AllowRetain=True, AllowTake=True, AllowSuspend=False, AllowCancel=False, GetModes=["nb"]), True),
+                ("pgreg", C(MaxSize=3, NConns=4, Budget=5, Method="fast", Keys=["a"]), True,
+                 {"kind": "pgmgr", "invariants": ["Inv_C16_registry", "Inv_Capacity"], "actprops": [], "preds": ["P16c", "P16d", "P16f"],
+                  "hcfg": {"stress": 24, "stress_rounds": 40}}),
             ],
         },
     },
@@ -202,6 +214,7 @@ PROPS = {
         "configs": {
             "quick": [
                 ("m1", C(InitMax=1, Budget=4, AllowTake=True, AllowRetain=True, AllowSuspend=False), True),
+                ("panic", C(InitMax=2, Budget=3, AllowPanic=True, AllowFail=False, GetModes=["nb"], NPost=1), True),
                 ("rsz", C(InitMax=2, Budget=3, ResizeTargets=[1, 3], AllowClose=True, AllowSuspend=False, AllowCancel=False), True),
                 ("nort", C(InitMax=2, Budget=3, GetModes=["nb", "timed"], CreateTO=["none", "finite"], RecycleTO=["none", "finite"], HasRuntime=False, AllowSuspend=False, AllowCancel=False, AllowFail=False), True),
                 ("m1s", C(InitMax=1, Budget=4, AllowTake=True, AllowRetain=True), False),
@@ -337,6 +350,9 @@ PROPS["C15"] = {
         "quick": [
             ("r2d2", C(MaxSize=2, NConns=4, Budget=5, AllowBreak=True, AllowInvalid=True), True, {"hcfg": {"backend": "r2d2"}}),
             ("sqlite", C(MaxSize=1, NConns=3, Budget=5), True, {"hcfg": {"backend": "sqlite"}}),
+            # the same pools with a recycle timeout configured: recycle runs under Runtime::timeout
+            ("r2d2_rto", C(MaxSize=1, NConns=3, Budget=4, AllowBreak=True, AllowInvalid=True), True, {"hcfg": {"backend": "r2d2_rto"}}),
+            ("sqlite_rto", C(MaxSize=1, NConns=3, Budget=4), True, {"hcfg": {"backend": "sqlite_rto"}}),
             ("diesel", C(MaxSize=1, NConns=3, Budget=5, AllowBreak=True), True, {"hcfg": {"backend": "diesel"}}),
             ("diesel_verified", C(MaxSize=1, NConns=3, Budget=4, AllowBreak=True), True, {"hcfg": {"backend": "diesel_verified"}}),
             ("diesel_query", C(MaxSize=1, NConns=3, Budget=4, AllowBreak=True, AllowInvalid=True), True, {"hcfg": {"backend": "diesel_query"}}),
@@ -348,6 +364,8 @@ PROPS["C15"] = {
             ("diesel_fn", C(MaxSize=2, NConns=4, Budget=5, AllowBreak=True, AllowInvalid=True), True, {"hcfg": {"backend": "diesel_fn"}}),
             ("r2d2", C(MaxSize=2, NConns=5, Budget=7, AllowBreak=True, AllowInvalid=True), True, {"hcfg": {"backend": "r2d2"}}),
             ("r2d2m3", C(MaxSize=3, NConns=5, Budget=6, AllowBreak=True), True, {"hcfg": {"backend": "r2d2"}}),
+            ("r2d2_rto", C(MaxSize=2, NConns=4, Budget=5, AllowBreak=True, AllowInvalid=True), True, {"hcfg": {"backend": "r2d2_rto"}}),
+            ("sqlite_rto", C(MaxSize=2, NConns=4, Budget=5), True, {"hcfg": {"backend": "sqlite_rto"}}),
             ("sqlite", C(MaxSize=2, NConns=4, Budget=6), True, {"hcfg": {"backend": "sqlite"}}),
             ("diesel", C(MaxSize=2, NConns=4, Budget=6, AllowBreak=True), True, {"hcfg": {"backend": "diesel"}}),
         ],
@@ -386,10 +404,13 @@ PROPS["C17"] = {
         "quick": [
             ("m1", C(MaxSize=1, NConns=4, Budget=5, Modes=["right", "stale", "wrong", "error", "disconnect"]), True),
             ("m2", C(MaxSize=2, NConns=4, Budget=4, Modes=["right", "stale", "error"]), True),
+            # the reply is missing altogether: the pool's recycle timeout (40 ms in the harness) ends the wait
+            ("stall", C(MaxSize=1, NConns=4, Budget=4, Modes=["right", "stall"]), True),
         ],
         "thorough": [
             ("m1", C(MaxSize=1, NConns=5, Budget=6, Modes=["right", "stale", "wrong", "error", "disconnect"]), True),
             ("m2", C(MaxSize=2, NConns=5, Budget=5, Modes=["right", "stale", "wrong", "error", "disconnect"]), True),
+            ("stall", C(MaxSize=2, NConns=5, Budget=5, Modes=["right", "stall", "error"]), True),
         ],
     },
 }
@@ -397,7 +418,7 @@ PROPS["C17"] = {
 PROPS["C16"] = {
     "kind": "pgmgr", "xh": True,
     "invariants": ["Inv_C16_registry", "Inv_C16_cache", "Inv_DeadStayDead", "Inv_Capacity"], "actprops": ["Act_C16_closed"],
-    "preds": ["P16a", "P16b", "P16c", "P16d", "P16e"],
+    "preds": ["P16a", "P16b", "P16c", "P16d", "P16e", "P16f"],
     "obs_sample": {"quick": 1, "thorough": 1},
     "configs": {
         "quick": [
@@ -405,12 +426,15 @@ PROPS["C16"] = {
             ("verified", C(MaxSize=1, NConns=3, Budget=4, Method="verified", Modes=["ok", "error", "disconnect"], Keys=["a"], AllowDrop=True), True),
             ("clean", C(MaxSize=1, NConns=3, Budget=3, Method="clean", Modes=["ok", "error"], Keys=["p:int4"]), True),
             ("custom", C(MaxSize=2, NConns=3, Budget=4, Method="custom", Modes=["ok", "disconnect"], Keys=["p:int4", "p:text"]), True),
+            # three clients, concurrent takes: the registry's bookkeeping under contention
+            ("fast3", C(MaxSize=3, NConns=3, Budget=5, Method="fast", Keys=["a"]), True, {"hcfg": {"stress": 24, "stress_rounds": 6}}),
         ],
         "thorough": [
             ("fast", C(MaxSize=2, NConns=4, Budget=5, Method="fast", Keys=["a", "p:int4", "p:text"], AllowDrop=True), True),
             ("verified", C(MaxSize=2, NConns=4, Budget=5, Method="verified", Modes=["ok", "error", "disconnect"], Keys=["a", "p:text"], AllowDrop=True), True),
             ("clean", C(MaxSize=2, NConns=4, Budget=4, Method="clean", Modes=["ok", "error", "disconnect"], Keys=["p:int4"], AllowDrop=True), True),
             ("custom", C(MaxSize=2, NConns=4, Budget=5, Method="custom", Modes=["ok", "error", "disconnect"], Keys=["p:int4", "p:text"]), True),
+            ("fast3", C(MaxSize=3, NConns=4, Budget=5, Method="fast", Keys=["a"]), True, {"hcfg": {"stress": 24, "stress_rounds": 40}}),
         ],
     },
 }
@@ -510,6 +534,6 @@ REQUIRED_ACTIONS = {
     "C13": ["Call", "GExit", "UDrop"],
     "C14": ["StartJob", "Lock", "Release", "Cancel", "DropWrapper"],
     "C15": ["Get", "GetResume", "InteractCancel", "Finish", "Break", "Invalidate"],
-    "C16": ["Get", "Drop", "Prepare", "PrepareJoin", "TxPrepare", "Clear", "Remove", "Take", "TakeBusy"],
+    "C16": ["Get", "Drop", "Prepare", "PrepareJoin", "TxPrepare", "Clear", "Remove", "Take", "TakeBusy", "TakeBoth"],
     "C17": ["Get", "Watch", "Take", "Return"],
 }
